@@ -488,11 +488,13 @@ func SaveAutofixChanges(lines *Lines) (autofixed bool) {
 		}
 		if err != nil {
 			G.Logger.TechErrorf(tmpName, "Cannot write: %s", err)
+			_ = os.Remove(tmpName.String())
 			continue
 		}
 		err = tmpName.Rename(filename)
 		if err != nil {
 			G.Logger.TechErrorf(tmpName, "Cannot overwrite with autofixed content: %s", err)
+			_ = os.Remove(tmpName.String())
 			continue
 		}
 		autofixed = true
